@@ -57,14 +57,13 @@ impl FromStr for Sorter {
 
 fn read_to_eof<R: Read>(r: &mut Reader<R>) -> Result<String, SelectionParseError> {
     let mut chars = Vec::new();
-    loop {
-        if let Some(ch) = r.next()? {
-            chars.push(ch)
-        } else {
-            let str = String::from_utf8(chars)?;
-            return Ok(str.trim().to_string());
-        }
+    // The byte after the getter has already been read as look-ahead, so start from it.
+    while let Some(ch) = r.peek()? {
+        chars.push(ch);
+        r.next()?;
     }
+    let str = String::from_utf8(chars)?;
+    Ok(str.trim().to_string())
 }
 
 impl Sorter {
